@@ -43,16 +43,30 @@ type closeCallback struct {
 	// conn's goroutines may already be closing it
 	mu        sync.Mutex
 	callbacks []func(error)
+	// set once the close has been dispatched: a callback registered later
+	// is told at once instead of never
+	dispatched bool
+	err        error
 }
 
 func (c *closeCallback) OnClose(cb func(error)) {
 	c.mu.Lock()
+	if c.dispatched {
+		err := c.err
+		c.mu.Unlock()
+		// not on the caller's goroutine: the client registers while it
+		// holds its lock, and its callback takes that lock
+		go cb(err)
+		return
+	}
 	c.callbacks = append(c.callbacks, cb)
 	c.mu.Unlock()
 }
 
 func (c *closeCallback) DispatchClose(err error) {
 	c.mu.Lock()
+	c.dispatched = true
+	c.err = err
 	cbs := make([]func(error), len(c.callbacks))
 	copy(cbs, c.callbacks)
 	c.mu.Unlock()
